@@ -53,11 +53,11 @@ func (dc *DocumentChunker) ChunkDocument(doc *model.Document) *ChunkCollection {
 	// Build section context from headings
 	toc := doc.TableOfContents()
 	currentSection := []string{}
-	currentHeadingLevel := 0
+	currentLevels := []int{}
 
 	// Process each page
 	for _, page := range doc.Pages {
-		pageChunks := dc.chunkPage(page, docTitle, &currentSection, &currentHeadingLevel, toc, &chunkIndex)
+		pageChunks := dc.chunkPage(page, docTitle, &currentSection, &currentLevels, toc, &chunkIndex)
 		chunks = append(chunks, pageChunks...)
 	}
 
@@ -70,7 +70,7 @@ func (dc *DocumentChunker) ChunkDocument(doc *model.Document) *ChunkCollection {
 }
 
 // chunkPage chunks a single page
-func (dc *DocumentChunker) chunkPage(page *model.Page, docTitle string, currentSection *[]string, currentHeadingLevel *int, toc []model.TOCEntry, chunkIndex *int) []*Chunk {
+func (dc *DocumentChunker) chunkPage(page *model.Page, docTitle string, currentSection *[]string, currentLevels *[]int, toc []model.TOCEntry, chunkIndex *int) []*Chunk {
 	var chunks []*Chunk
 
 	if page == nil {
@@ -100,7 +100,7 @@ func (dc *DocumentChunker) chunkPage(page *model.Page, docTitle string, currentS
 
 				// Update section path
 				headingLevel := getHeadingLevel(e.Text, toc, page.Number)
-				updateSectionPath(currentSection, currentHeadingLevel, headingLevel, e.Text)
+				pushSection(currentSection, currentLevels, headingLevel, e.Text)
 
 				// Create heading chunk
 				chunk := dc.createHeadingChunk(e.Text, docTitle, *currentSection, headingLevel, page.Number, chunkIndex)
@@ -120,7 +120,7 @@ func (dc *DocumentChunker) chunkPage(page *model.Page, docTitle string, currentS
 			flushTextBlock()
 
 			// Update section path
-			updateSectionPath(currentSection, currentHeadingLevel, e.Level, e.Text)
+			pushSection(currentSection, currentLevels, e.Level, e.Text)
 
 			// Create heading chunk
 			chunk := dc.createChunkFromHeading(e, docTitle, *currentSection, page.Number, chunkIndex)
@@ -436,23 +436,31 @@ func getHeadingLevel(text string, toc []model.TOCEntry, pageNum int) int {
 	return 1 // Default to level 1
 }
 
-// updateSectionPath updates the section path based on heading level
-func updateSectionPath(sectionPath *[]string, currentLevel *int, newLevel int, headingText string) {
-	headingText = strings.TrimSpace(headingText)
-
-	if newLevel <= *currentLevel {
-		// Pop sections until we're at the right level
-		for len(*sectionPath) >= newLevel {
-			if len(*sectionPath) > 0 {
-				*sectionPath = (*sectionPath)[:len(*sectionPath)-1]
-			} else {
-				break
-			}
-		}
+// pushSection makes a heading of the given level the innermost section: every
+// entry whose level is not above the new heading's level is closed first.
+// levels holds the heading level of each entry of sectionPath. The path is
+// rebuilt in a new slice, so paths already handed to chunks never change.
+func pushSection(sectionPath *[]string, levels *[]int, newLevel int, headingText string) {
+	keep := len(*levels)
+	for keep > 0 && (*levels)[keep-1] >= newLevel {
+		keep--
 	}
 
-	// Add new section
-	*sectionPath = append(*sectionPath, headingText)
+	path := make([]string, keep, keep+1)
+	copy(path, *sectionPath)
+	*sectionPath = append(path, strings.TrimSpace(headingText))
+	*levels = append((*levels)[:keep:keep], newLevel)
+}
+
+// updateSectionPath updates the section path based on heading level. Only the
+// level of the last heading is known here, so the entries of the path are taken
+// to have consecutive levels ending at *currentLevel.
+func updateSectionPath(sectionPath *[]string, currentLevel *int, newLevel int, headingText string) {
+	levels := make([]int, len(*sectionPath))
+	for i := range levels {
+		levels[i] = *currentLevel - (len(levels) - 1 - i)
+	}
+	pushSection(sectionPath, &levels, newLevel, headingText)
 	*currentLevel = newLevel
 }
 
